@@ -26,4 +26,39 @@ TEXT = {
         "level_text": "Exploration: generated segments (small and 128-document-block families whose neighbouring blocks differ by 0..24 bytes and end in 2-byte records; built, loaded both ways, merged through the byte-copy and re-encode paths) are visited in drawn orders (last-of-block after another block, first-of-next, n >= Count) with visitors that stop after k values; every visit must deliver exactly the model's (field,value) sequence prefix.",
         "level_note": "Trusts the reference model; values are copied inside the callback so nothing is assumed about buffer lifetime.",
     },
+    "C05": {
+        "technique": "model-based property testing (rapid): generated Next/Advance histories over generated posting lists, exclusions and flags vs. a filtered list + cursor model",
+        "level_text": "Exploration: each case draws a posting list (fixed chunk sizes 1..7 over few documents, adaptive multi-chunk over >1024 documents, 1-hit terms of merged segments, absent terms), an exclusion bitmap of five classes, the three flags, optionally ReplaceActual(subset), and a history of up to 25 Next/Advance calls with targets placed relative to the cursor and chunk boundaries; after every call the returned posting (number; frequency/norm when any flag is set; locations when requested) must equal the model's, nil must stay nil, Count() must equal the non-excluded postings.",
+        "level_note": "Trusts the model list (validated against New by C01) and the API contract on Advance targets.",
+    },
+    "C08": {
+        "technique": "property-based testing (rapid): dictionary enumeration under generated ranges and harness automata vs. filtered model term set",
+        "level_text": "Exploration: built and merged segments (1-hit and general encoded terms interleaved), every field incl. unknown ones, generated [start,end) ranges from existing terms/prefixes/successors/unrelated keys, automata nil/always/prefix/contains-byte/length-mod; the enumeration must be exactly the model's live terms in range accepted by the automaton, ascending, each with its true document count; Contains/PostingsList are probed for present, absent and deleted-away terms.",
+        "level_note": "Trusts the model; automata beyond prefix/any are harness-defined but obey the Automaton contract.",
+    },
+    "C11": {
+        "technique": "property-based testing (rapid): independent footer parser + CRC-32/IEEE recomputation + persist/load/persist byte identity",
+        "level_text": "Exploration: every generated segment (built, merged, loaded both ways) is persisted; an independent parser written from the README checks that the last four bytes are the IEEE CRC-32 of all preceding bytes and that numDocs/version/chunk mode equal what the segment reports; the returned byte count must equal the bytes written; loading and persisting again (memory- and file-backed) must reproduce the file byte for byte; Merger.WriteTo output (hooked and public) is checked the same way.",
+        "level_note": "Trusts hash/crc32 and the README footer layout.",
+    },
+    "C13": {
+        "technique": "stateful model-based testing (rapid): histories with an object pool where every lookup may reuse any earlier postings list / iterator, vs. the reference model",
+        "level_text": "Exploration: histories of up to 40 steps over 1-3 differently shaped segments; lookups pass nil or any live earlier PostingsList as prealloc (across segments, fields, encodings), Iterator() passes nil or any live earlier iterator (half-consumed, 1-hit, empty, other flags), iterators are stepped, dictionaries / dictionary iterators / doc-value readers / stored-field visits are continued in between; every result must equal the model's.",
+        "level_note": "Trusts the model; objects handed back as prealloc (and iterators made from them) are treated as dead.",
+    },
+    "C16": {
+        "technique": "property-based testing (rapid): CollectionStats of generated built/loaded/merged segments vs. counts computed from the model; algebraic check of Merge",
+        "level_text": "Exploration: generated batches with length == sum of frequencies (incl. term-less field instances), built, loaded and merged through trees with deletions; TotalDocumentCount, DocumentCount and SumTotalTermFrequency must equal the model's numbers for every field, be zero for unknown fields, and CollectionStats.Merge must add component-wise incl. self-merge.",
+        "level_note": "Trusts the model's two definitions (built: documents carrying the field / sum of lengths; merged: survivors with >=1 term / sum of surviving frequencies), which are the property's.",
+    },
+    "C17": {
+        "technique": "metamorphic property testing (rapid): flat merge vs. drawn order-preserving bracketings, composition of document-number maps, single-segment identity",
+        "level_text": "Exploration: for generated lists of 2-5 segments with deletions and a drawn recursive bracketing, the flat merge and the bracketed merge must be observationally identical on every read API including statistics, the reported document-number maps must compose, merge([M]) must equal M including statistics and merge([B]) must equal a built B except statistics. No reference model is involved.",
+        "level_note": "Independent of the harness model; depends only on the observation walker.",
+    },
+    "C18": {
+        "technique": "property-based testing (rapid): DocsMatchingTerms on generated term lists vs. union over the model",
+        "level_text": "Exploration: generated segments (built, loaded, merged) and lists of 0-12 (field, term) pairs mixing present, absent, unknown-field, empty-field-name, repeated, deleted-away and 1-hit terms in arbitrary order; the result must equal the union computed from the model, without error or panic.",
+        "level_note": "Trusts the model and roaring set equality.",
+    },
 }
